@@ -17,6 +17,7 @@ import TraitsVerif.Props.C07
 import TraitsVerif.Lemmas.PyLObj
 import TraitsVerif.Generated.CtorCopy
 import TraitsVerif.Model.CtorCopyAssumed
+import TraitsVerif.Lemmas.PyLCtor
 namespace TraitsVerif.Props.C04
 open TraitsVerif TraitsVerif.Py TraitsVerif.Model
 variable {α : Type}
@@ -633,6 +634,39 @@ theorem C04_copy_source :
     (Generated.CtorCopy.traitListObjectCtorCopy.drop 1) = (Model.CtorCopyAssumed.traitListObjectCtorCopy.drop 1) ∧
     Generated.CtorCopy.traitDictObjectCtorCopy = Model.CtorCopyAssumed.traitDictObjectCtorCopy := by
   first | rfl | exact ⟨rfl, rfl⟩
+
+/-- **C04_init_is_source.**  `TraitListObject.__init__` as an interpreted
+program, run with `super().__init__` bound to the translated
+`TraitList.__init__`: for every trait (`None` / with or without items event),
+owner, value, bounds and validator it is the modelled constructor; whose
+contents are exactly whole-value assignment (`TraitListObject.assign`: the
+length of the listed value is checked BEFORE any item is validated, then every
+item goes through the object's own `_item_validator`), and whose attributes are
+the ones `OSelf.live` assumes (owner by weak reference iff not `None`,
+`name_items` iff the trait has an items event, a private copy of
+`[self.notifier]`). -/
+theorem C04_init_is_source (C : PyLC.Ctx α) (t : Option Bool) (owner : Bool) (xs : List α) :
+    PyLC.runListObjectInit Generated.Ctor.traitListObjectInit Generated.Ctor.traitListInit C t owner xs
+      = PyLC.listObjectInit C t owner xs ∧
+    (∀ (c : LenCfg) (E : Env α), C.lenOk = c.ok → C.own = E.v →
+      (PyLC.listObjectInit C t owner xs).map (·.items) = TraitListObject.assign c E xs) ∧
+    (∀ o, PyLC.listObjectInit C t owner xs = .ok o →
+      o.itemValidator = .own ∧ o.notifiers = .ownCopy ∧ o.object = some owner ∧ o.trait = some t ∧
+      o.nameItems = some (t == some true)) := by
+  refine ⟨Lemmas.PyLCtor.list_object_init_is_source C t owner xs, ?_, ?_⟩
+  · intro c E hl hv
+    simp only [PyLC.listObjectInit, TraitListObject.assign, hl, hv]
+    by_cases h : c.ok (xs.length : Int) = true
+    · simp only [h, if_true]; cases valAll E.v 0 xs <;> rfl
+    · simp only [h]; rfl
+  · intro o ho
+    simp only [PyLC.listObjectInit] at ho
+    by_cases h : C.lenOk (xs.length : Int) = true
+    · simp only [h, if_true] at ho
+      cases hv : valAll C.own 0 xs with
+      | error e => simp [hv] at ho
+      | ok ys => simp only [hv, Except.ok.injEq] at ho; subst ho; simp
+    · simp [h] at ho
 
 /-- A reachable state meeting `Inv`, an accepted and two rejected operations. -/
 example : Inv cfg13 rejNeg [1, 2] := by
